@@ -272,3 +272,55 @@ contract(FS, 'SynthDef.as_bytes', props=('C02',), params={'self': 'self'},
          fields={'SynthDef': {'_bytes': 'obj'}, 'Buf': {}}, class_modules={'SynthDef': FS, 'Buf': FS},
          hooks={'getattr': ab_getattr, 'construct': ab_construct, 'compare': ab_compare},
          policies={'SynthDef._write_def_list': ab_write}, modifies=[('self', '_bytes')], native=False)
+
+
+# ---- ChannelList.__init__ (C03: "scalars and tuples are never expanded") ------------------------------------------------------------
+# nothing given: no channels; a string or a TUPLE: ONE channel holding it as it is; any other iterable: its items are the
+# channels; anything else (a number, a unit): one channel holding it
+IS_STR_OR_TUPLE = z3.Bool('obj_is_a_str_or_tuple')
+IS_ITERABLE = z3.Bool('obj_has___iter__')
+
+
+def cl_builtin(eng, name, args, kwargs, st, node):
+    if name == 'super':
+        which = 'list' if (args and args[0].k in ('class', 'obj', 'module') and 'AbstractSequence' in str(getattr(args[0], 'py', '') or getattr(args[0], 'oid', ''))) else 'param'
+        return [(st, V('obj', oid='super', extra={'which': which}))]
+    if name == 'isinstance' and len(args) == 2 and args[0].k == 'obj' and args[0].oid == 'obj':
+        return [(st, vbool(IS_STR_OR_TUPLE))]
+    if name == 'hasattr' and len(args) == 2 and args[0].k == 'obj' and args[0].oid == 'obj' and args[1].k == 'str' and args[1].py == '__iter__':
+        return [(st, vbool(IS_ITERABLE))]
+    return None
+
+
+def cl_getattr(eng, obj, name, st, node):
+    if obj.k == 'obj' and obj.oid == 'super' and name == '__init__':
+        def init(eng, a, kw, st, node, _o=obj):
+            st.trace.append(('super-init', _o.extra['which'], tuple(a)))
+            return [(st, NONE)]
+        return [(st, V('func', py=('spec', init)))]
+    if obj.k == 'module' and name in ('AbstractSequence', 'UGenSequence'):
+        return [(st, V('obj', oid=name))]
+    return None
+
+
+def chlist_init_post(c):
+    li = [e for e in c.trace if e[0] == 'super-init' and e[1] == 'list']
+    if len(li) != 1:
+        return z3.BoolVal(False)
+    a = li[0][2]
+    obj = c._params['obj']
+    if c.kinds.get('obj') == 'none':
+        return z3.BoolVal(len(a) == 0)
+    if len(a) != 1:
+        return z3.BoolVal(False)
+    x = a[0]
+    if x is obj:
+        return z3.And(z3.Not(IS_STR_OR_TUPLE), IS_ITERABLE)                               # its items are the channels
+    one = x.k == 'list' and x.items is not None and len(x.items) == 1 and x.items[0] is obj
+    return z3.And(z3.BoolVal(bool(one)), z3.Or(IS_STR_OR_TUPLE, z3.Not(IS_ITERABLE)))      # ONE channel holding it
+
+
+contract(F, 'ChannelList.__init__', props=('C03',), params={'self': 'self', 'obj': ['none', 'obj']},
+         ensures=[('no-channels/one-channel-for-a-string,a-tuple-or-a-non-iterable/the-items-of-any-other-iterable', chlist_init_post)],
+         fields={'ChannelList': {}}, class_modules={'ChannelList': F},
+         hooks={'builtin_first': cl_builtin, 'getattr': cl_getattr}, modifies=[], native=False)
